@@ -48,14 +48,18 @@ CLAIMED = {
             "counter. Not theorems: persistence of entries in the final symbol table and whole-program data-label layout; "
             "decided by the differential correspondence (model = real parse+check in all four modes) and the layout oracle.",
             "trusted: Model/Preproc.v (hand model, differential), tools/translate tables"),
-    "C15": ("PARTIAL proof. Coq theorems: reset() (regenerated from hera/vm.py) yields a state that depends only on "
-            "the settings object, prior terminal output and the settings' warning counter, so a run is the same "
-            "whatever the machine executed before (run_deterministic); every attribute vm.py assigns is a field of "
-            "the model; the throttled loop, by induction on iterations, stops after exactly min(n, run length) "
-            "instructions and its states coincide with those of any larger limit (prefix). The comparison with the "
-            "*unthrottled* loop (which differs by not counting) and process-level isolation of hera.main are decided "
-            "by differential runs on the real machine (every n in 0..len+2; run / rerun / other program / rerun).",
-            "trusted: as C02 plus the oracle harness; process state outside VirtualMachine attributes is not modelled"),
+    "C15": ("Coq theorems: reset() (regenerated from hera/vm.py) yields a state that depends only on the settings object, "
+            "prior terminal output and the settings' warning counter, so a run is the same whatever the machine executed "
+            "before (run_deterministic); every attribute vm.py assigns is a field of the model; the throttled loop stops "
+            "after exactly min(n, run length) instructions and coincides with any larger limit (prefix); and nothing the "
+            "interpreter executes reads or writes the instruction counter (one regenerated lemma per generated definition, "
+            "Gen/Indep.v, by a logical relation over the state monad), hence the throttled loop follows the unthrottled "
+            "loop step for step in states equal up to op_count, and ends where it ends when the limit is not reached — for "
+            "every program and state, no side condition. PARTIAL only in that process-level isolation of hera.main (module "
+            "globals, default-argument objects) is outside the model: decided by the oracle (run / rerun / other program / "
+            "rerun on one machine, main() repeated in one process, unread stdin between runs).",
+            "trusted: as C02 plus Lib/Indep.v (relation and primitives), tools/translate/genindep.py (lemma generator); "
+            "process state outside VirtualMachine attributes is not modelled"),
     "C06": ("Coq theorems: the specification's own arithmetic decoder inverts the HERA encoding table (complete "
             "enumeration); every iteration of the interpreter loop on the operations of an accepted program is a "
             "step of the independent word-level machine (specification decoder + specification step) on the "
